@@ -1,14 +1,362 @@
-//! C18 harness (stub).
+//! C18: HyperLogLog cardinality and overlap estimates stay within their error bound.
+//!
+//! Two sketches A and B per case (k = 21), filled with deterministic, pairwise distinct hashes
+//! h_i = splitmix64(i) (a bijection of u64, implemented identically in Lean/Driver/C18.lean).
+//! Request lines
+//!   case <n> <kind>
+//!   A <p> <start> <n> | B <p> <start> <n>   new(p, 21); add_hash(splitmix64(i)) for start <= i < start+n -> nz=<non-zero registers>
+//!   hist A|B        estimators::counts with the width `cardinality` picks          -> comma list
+//!   card A|B        cardinality() and the f64 the estimator returned               -> card=<n> bits=<16 hex | nan>
+//!   cardint A|B     cardinality()                                                  -> <n>
+//!   bound A|B       | cardinality() - n | <= 6 * 1.04/sqrt(m) * n + 1 ?            -> within | outside
+//!   joint           estimators::joint_mle(A, B, p, q)                              -> a=<onlyA> b=<onlyB> i=<inter>
+//!   api             A.union(B) A.intersection(B) A.similarity(B) A.containment(B)  -> u=.. i=.. s=<bits> c=<bits>
+//!   consist         the four API answers all derive from one joint_mle triple       -> consistent | inconsistent <what>
+//!   jhist           joint_mle's only-A/only-B equal mle(counts(merge(A,B))) - mle(counts(B|A)) at relerr 0.01 -> same | differ
+//!   jbound          union / intersection estimates against the true sizes          -> within | outside <what>
+use sourmash::signature::SigsTrait;
+use sourmash::sketch::hyperloglog::estimators;
+use sourmash::sketch::hyperloglog::HyperLogLog;
 use verif_harness::*;
 
-fn gen(_a: &Args) {
-    let mut o = Out::new();
-    o.case("stub");
+pub fn splitmix64(i: u64) -> u64 {
+    let mut z = i.wrapping_add(0x9E37_79B9_7F4A_7C15);
+    z = (z ^ (z >> 30)).wrapping_mul(0xBF58_476D_1CE4_E5B9);
+    z = (z ^ (z >> 27)).wrapping_mul(0x94D0_49BB_1331_11EB);
+    z ^ (z >> 31)
 }
 
-fn step(_: &mut (), ws: &[&str]) -> String {
+// ------------------------------------------------------------------------------------ generator
+
+/// one case = its kind and its op lines; cases are emitted in shuffled order so that the expensive
+/// ones (large p, large n) are spread over the parallel workers of ./check
+type Cases = Vec<(String, Vec<String>)>;
+
+fn single(o: &mut Cases, p: u32, start: u64, n: u64) {
+    o.push((
+        "single".into(),
+        vec![
+            format!("A {} {} {}", p, start, n),
+            "hist A".into(),
+            "card A".into(),
+            "cardint A".into(),
+            "bound A".into(),
+        ],
+    ));
+}
+
+fn pair(o: &mut Cases, p: u32, sa: u64, na: u64, sb: u64, nb: u64, kind: &str) {
+    let mut v = vec![format!("A {} {} {}", p, sa, na), format!("B {} {} {}", p, sb, nb)];
+    for op in ["joint", "api", "consist", "jhist", "jbound", "bound A", "bound B"] {
+        v.push(op.into());
+    }
+    o.push((kind.into(), v));
+}
+
+fn gen(a: &Args) {
+    let mut r = Rng::new(a.seed);
+    let mut o: Cases = vec![];
+    let thorough = a.tier == "thorough";
+    // ---- cardinality over the whole range 0 .. 64 m, every precision (all three counter widths)
+    for p in 4..=18u32 {
+        let m = 1u64 << p;
+        let cap = if thorough { 64 * m } else { (64 * m).min(300_000) };
+        let mut ns: Vec<u64> = vec![0, 1, 2, 3, 5, 10, 17, m / 4, m / 2, m - 1, m, m + 1, 2 * m, 3 * m, 5 * m, 8 * m, 16 * m, 32 * m, 64 * m];
+        let extra = if thorough { 40 } else { 8 };
+        for _ in 0..extra {
+            // log-uniform in 1 .. 64 m
+            let bits = r.range(1, (p + 6) as u64) as u32;
+            ns.push(r.bits(bits).max(1));
+        }
+        let mut ns: Vec<u64> = ns.into_iter().map(|n| n.min(cap)).collect();
+        ns.sort_unstable();
+        ns.dedup();
+        for n in ns {
+            // the stream offset varies: different sample sets for the same n
+            let start = if r.chance(1, 2) { 0 } else { r.bits(40) };
+            single(&mut o, p, start, n);
+        }
+    }
+    // small sketches, many sample sets: the u8 path and the small-range behaviour
+    let many = if thorough { 4000 } else { 600 };
+    for _ in 0..many {
+        let p = r.range(4, 10) as u32;
+        let m = 1u64 << p;
+        let n = match r.below(4) {
+            0 => r.range(0, 20),
+            1 => r.range(0, m),
+            2 => r.range(m, 8 * m),
+            _ => r.range(8 * m, 64 * m),
+        };
+        single(&mut o, p, r.bits(48), n);
+    }
+    // ---- overlap regimes
+    let ps: Vec<u32> = if thorough { (4..=18).collect() } else { vec![4, 5, 7, 8, 10, 12, 14, 15, 16, 18] };
+    for &p in &ps {
+        let m = 1u64 << p;
+        let cap = if thorough { 16 * m } else { (16 * m).min(100_000) };
+        let mut sizes: Vec<u64> = [m / 2, m, 4 * m, 16 * m].iter().map(|n| (*n).min(cap).max(1)).collect();
+        sizes.dedup();
+        for &na in &sizes {
+            for &nb in &sizes {
+                let s = r.bits(40);
+                // disjoint
+                pair(&mut o, p, s, na, s + na, nb, "disjoint");
+                // partial: half of the smaller one shared
+                let sh = na.min(nb) / 2;
+                pair(&mut o, p, s, na, s + na - sh, nb, "partial");
+                // nested: B inside A (or A inside B)
+                if nb <= na {
+                    pair(&mut o, p, s, na, s + r.below(na - nb + 1), nb, "nested");
+                } else {
+                    pair(&mut o, p, s + r.below(nb - na + 1), na, s, nb, "nested");
+                }
+                // identical
+                if na == nb {
+                    pair(&mut o, p, s, na, s, nb, "identical");
+                }
+            }
+        }
+        // empty operands
+        pair(&mut o, p, 0, 0, 0, 0, "empty-empty");
+        pair(&mut o, p, 0, m.min(cap), 0, 0, "nonempty-empty");
+        pair(&mut o, p, 0, 0, 7, m.min(cap), "empty-nonempty");
+    }
+    let many = if thorough { 3000 } else { 400 };
+    for _ in 0..many {
+        let p = r.range(4, 11) as u32;
+        let m = 1u64 << p;
+        let na = r.range(1, 16 * m);
+        let nb = r.range(1, 16 * m);
+        let s = r.bits(44);
+        // a random overlap: B starts somewhere in [s, s + na]
+        let off = r.below(na + 1);
+        let kind = if off == na { "disjoint" } else if off + nb <= na { "nested" } else { "partial" };
+        pair(&mut o, p, s, na, s + off, nb, kind);
+    }
+    for i in (1..o.len()).rev() {
+        let j = r.below(i as u64 + 1) as usize;
+        o.swap(i, j);
+    }
+    let mut out = Out::new();
+    for (kind, ops) in &o {
+        out.case(kind);
+        for l in ops {
+            out.op(l);
+        }
+    }
+}
+
+// ------------------------------------------------------------------------------------ exec
+
+#[derive(Clone)]
+struct Sk {
+    h: HyperLogLog,
+    p: usize,
+    start: u64,
+    n: u64,
+}
+#[derive(Default)]
+struct St {
+    a: Option<Sk>,
+    b: Option<Sk>,
+}
+
+/// f64 as its 16-hex-digit bit pattern; NaN (0/0 of two empty sketches) has no canonical bits
+fn bits(x: f64) -> String {
+    if x.is_nan() {
+        "nan".into()
+    } else {
+        format!("{:016x}", x.to_bits())
+    }
+}
+
+fn regs(h: &HyperLogLog) -> Vec<u8> {
+    h.to_vec().iter().map(|x| *x as u8).collect()
+}
+
+/// the estimator exactly as `cardinality` dispatches it, but returning the f64
+fn mle_f64(h: &HyperLogLog, p: usize) -> f64 {
+    let q = 64 - p;
+    let r = regs(h);
+    if p < 8 {
+        estimators::mle(&estimators::counts::<u8>(&r, q), p, q, 0.01)
+    } else if p < 16 {
+        estimators::mle(&estimators::counts::<u16>(&r, q), p, q, 0.05)
+    } else {
+        estimators::mle(&estimators::counts::<u32>(&r, q), p, q, 0.1)
+    }
+}
+
+fn mle_001(r: &[u8], p: usize) -> f64 {
+    let q = 64 - p;
+    if p < 8 {
+        estimators::mle(&estimators::counts::<u8>(r, q), p, q, 0.01)
+    } else if p < 16 {
+        estimators::mle(&estimators::counts::<u16>(r, q), p, q, 0.01)
+    } else {
+        estimators::mle(&estimators::counts::<u32>(r, q), p, q, 0.01)
+    }
+}
+
+fn hist(h: &HyperLogLog, p: usize) -> String {
+    let q = 64 - p;
+    let r = regs(h);
+    if p < 8 {
+        show_nats(estimators::counts::<u8>(&r, q).iter().map(|x| *x as u64))
+    } else if p < 16 {
+        show_nats(estimators::counts::<u16>(&r, q).iter().map(|x| *x as u64))
+    } else {
+        show_nats(estimators::counts::<u32>(&r, q).iter().map(|x| *x as u64))
+    }
+}
+
+/// |est - truth| <= mult * 1.04/sqrt(m) * scale + slack, in exact integer arithmetic:
+/// (d - slack)^2 * m * 10^4 <= (mult * 104 * scale)^2
+fn within(est: u64, truth: u64, scale: u64, p: usize, mult: u64, slack: u64) -> bool {
+    let d = est.abs_diff(truth);
+    if d <= slack {
+        return true;
+    }
+    let d = (d - slack) as u128;
+    let rhs = (mult * 104) as u128 * scale as u128;
+    // d^2 * m * 10^4 <= rhs^2 ; d < 2^64 so compare through a quotient to stay inside u128
+    let lhs_m = (1u128 << p) * 10_000;
+    // d^2 * lhs_m <= rhs^2  <=>  d * d <= rhs^2 / lhs_m (floor) when d*d fits
+    match d.checked_mul(d).and_then(|x| x.checked_mul(lhs_m)) {
+        Some(l) => match rhs.checked_mul(rhs) {
+            Some(rr) => l <= rr,
+            None => true,
+        },
+        None => false,
+    }
+}
+
+fn overlap(a: &Sk, b: &Sk) -> (u64, u64) {
+    // true |A ∩ B| and |A ∪ B| of the two index ranges (splitmix64 is injective)
+    let lo = a.start.max(b.start);
+    let hi = (a.start + a.n).min(b.start + b.n);
+    let inter = hi.saturating_sub(lo);
+    (inter, a.n + b.n - inter)
+}
+
+fn step(st: &mut St, ws: &[&str]) -> String {
+    let which = |st: &St, w: &str| -> Option<Sk> {
+        if w == "A" {
+            st.a.clone()
+        } else {
+            st.b.clone()
+        }
+    };
     match ws[0] {
         "case" => "ok".into(),
+        "A" | "B" => {
+            let p: usize = ws[1].parse().unwrap();
+            let start: u64 = ws[2].parse().unwrap();
+            let n: u64 = ws[3].parse().unwrap();
+            let mut h = HyperLogLog::new(p, 21).unwrap();
+            for i in 0..n {
+                h.add_hash(splitmix64(start + i));
+            }
+            let sk = Some(Sk { h, p, start, n });
+            let nz = sk.as_ref().unwrap().h.to_vec().iter().filter(|x| **x != 0).count();
+            if ws[0] == "A" {
+                st.a = sk
+            } else {
+                st.b = sk
+            }
+            format!("nz={}", nz)
+        }
+        "hist" => match which(st, ws[1]) {
+            Some(s) => hist(&s.h, s.p),
+            None => "none".into(),
+        },
+        "card" => match which(st, ws[1]) {
+            Some(s) => format!("card={} bits={}", s.h.cardinality(), bits(mle_f64(&s.h, s.p))),
+            None => "none".into(),
+        },
+        "cardint" => match which(st, ws[1]) {
+            Some(s) => s.h.cardinality().to_string(),
+            None => "none".into(),
+        },
+        "bound" => match which(st, ws[1]) {
+            Some(s) => {
+                if within(s.h.cardinality() as u64, s.n, s.n, s.p, 6, 1) {
+                    "within".into()
+                } else {
+                    "outside".into()
+                }
+            }
+            None => "none".into(),
+        },
+        "joint" | "api" | "consist" | "jhist" | "jbound" => {
+            let (a, b) = match (st.a.as_ref(), st.b.as_ref()) {
+                (Some(a), Some(b)) => (a, b),
+                _ => return "none".into(),
+            };
+            let (p, q) = (a.p, 64 - a.p);
+            let (ra, rb) = (regs(&a.h), regs(&b.h));
+            let (oa, ob, it) = estimators::joint_mle(&ra, &rb, p, q);
+            match ws[0] {
+                "joint" => format!("a={} b={} i={}", oa, ob, it),
+                "api" => format!(
+                    "u={} i={} s={} c={}",
+                    a.h.union(&b.h),
+                    a.h.intersection(&b.h),
+                    bits(a.h.similarity(&b.h)),
+                    bits(a.h.containment(&b.h))
+                ),
+                "consist" => {
+                    let mut bad = vec![];
+                    if a.h.union(&b.h) != oa + ob + it {
+                        bad.push("union")
+                    }
+                    if a.h.intersection(&b.h) != it {
+                        bad.push("intersection")
+                    }
+                    if a.h.similarity(&b.h).to_bits() != (it as f64 / (oa + ob + it) as f64).to_bits() {
+                        bad.push("similarity")
+                    }
+                    if a.h.containment(&b.h).to_bits() != (it as f64 / (oa + it) as f64).to_bits() {
+                        bad.push("containment")
+                    }
+                    if bad.is_empty() {
+                        "consistent".into()
+                    } else {
+                        format!("inconsistent {}", bad.join(","))
+                    }
+                }
+                "jhist" => {
+                    let mut m = a.h.clone();
+                    m.merge(&b.h).unwrap();
+                    let cabx = mle_001(&regs(&m), p);
+                    let (cax, cbx) = (mle_001(&ra, p), mle_001(&rb, p));
+                    if (cabx - cbx) as usize == oa && (cabx - cax) as usize == ob {
+                        "same".into()
+                    } else {
+                        "differ".into()
+                    }
+                }
+                _ => {
+                    let (ti, tu) = overlap(a, b);
+                    let mut bad = vec![];
+                    let u = (oa + ob + it) as u64;
+                    if !within(u, tu, tu, p, 6, 1) {
+                        bad.push("union")
+                    }
+                    // the intersection is a difference of estimates of size ~ |A ∪ B|: its error
+                    // scales with the union, not with the intersection itself
+                    if !within(it as u64, ti, tu, p, 6, 1) {
+                        bad.push("intersection")
+                    }
+                    if bad.is_empty() {
+                        "within".into()
+                    } else {
+                        format!("outside {}", bad.join(","))
+                    }
+                }
+            }
+        }
         _ => "bad-op".into(),
     }
 }
@@ -17,7 +365,7 @@ fn main() {
     let a = args();
     match a.mode.as_str() {
         "gen" => gen(&a),
-        "exec" => exec_loop(|| (), step),
+        "exec" => exec_loop(St::default, step),
         _ => panic!("mode"),
     }
 }
